@@ -12,7 +12,7 @@ from typing import Any, Dict, List, Tuple
 
 from lib.bounded import BObl
 from spec.gen import random_model
-from spec.model import view, diff
+from spec.model import view, diff, normalize
 from spec.surface import surface
 from bounded.c01 import parse_real, evaluate, reduce_failure, _culprit_name, _path, _same, _chars
 
@@ -61,38 +61,96 @@ def props_of(v) -> List[Tuple[str, Any]]:
     return out
 
 
-def _rt_class(v: str, v2: str) -> str:
-    """How a property value changed on its way through db.dbml and back."""
-    unesc = re.sub(r'\\(.)', r'\1', v, flags=re.S)
-    lines = lambda x: [l.strip() for l in x.split('\n') if l.strip()]
-    if '\n' in v and lines(v2) in (lines(v), lines(unesc)):
-        return 'multiline-reindented'
-    if '\\' in v and v2 == unesc:
-        return 'backslash-unescaped'
-    return 'chars=' + ('+'.join(_chars(v)) or 'plain')
+def _rt_class(v: str) -> str:
+    """Class of a property value that does not survive db.dbml -> parse.  A function of the value only (fixed
+    priority), so that the key names the defect and not the document it was found in."""
+    if '\n' in v:
+        return 'multiline-reindented'       # rendered as '''<newline><indented lines>''' and never de-indented on parse
+    if '\\' in v:
+        return 'backslash-unescaped'        # backslashes are written without escaping
+    return 'other'
+
+
+def _probe_rejected(kind: str, v: str) -> bool:
+    """Does a single property with value v (on a table / a column) make db.dbml unparsable?"""
+    try:
+        db = parse_real("Table t {\n    id int\n}", True)
+        holder = db.tables[0] if kind == 'table' else db.tables[0].columns[0]
+        holder.properties = {'p': v}
+        out = db.dbml
+    except Exception:
+        return False
+    try:
+        parse_real(out, True)
+        return False
+    except Exception:
+        return True
+
+
+def _rejected_class(m) -> str:
+    for t in m['tables']:
+        for kind, h in [('table', t)] + [('column', c) for c in t['columns']]:
+            for _k, v in h['properties']:
+                if _probe_rejected(kind, v):
+                    return ('trailing-backslash' if v.endswith('\\') else
+                            'triple-quote-in-value' if "'''" in v else 'other')
+    return 'other'
+
+
+# deterministic probe family: every value class on every site, alone and mixed with ordinary settings
+PROBE_VALUES = {'plain': 'some value', 'squote': "it's", 'dquote': 'say "hi"', 'multiline': 'a\nb',
+                'multiline-indented': 'a\n  b\nc', 'backslash': 'a\\b', 'trailing-backslash': 'x\\',
+                'triple-quote': "q'''q", 'slashes': 'a // b', 'braces': '{x} [y]'}
+
+
+def probe_model(rec):
+    v = PROBE_VALUES[rec['value']]
+    col = {'name': 'c', 'type': 'int'}
+    t = {'name': 't', 'columns': [{'name': 'id', 'type': 'int'}, col]}
+    if rec['mixed']:
+        col.update({'pk': True, 'note': 'col note', 'default': {'kind': 'int', 'value': 1}})
+        t.update({'note': 'table note', 'indexes': [{'subjects': [{'col': 'id'}]}]})
+    props = [['p', v]] + ([['q', 'second']] if rec['mixed'] else [])
+    if rec['site'] == 'table':
+        t['properties'] = props
+    else:
+        col['properties'] = props
+    return normalize({'tables': [t], 'enums': [], 'refs': [], 'table_groups': [], 'sticky_notes': [], 'project': None,
+                      'allow_properties': True})
 
 
 class Accept(BObl):
     id = 'C15.B.accept'
     property = 'C15'
-    rule = ('case = (model seed, spelling seed); the model has >= 1 property on a table or column (1-3 keys each, values '
+    rule = ('probe family (seed-independent): one property with a value of each class (plain, quotes, multi-line, '
+            'backslash, trailing backslash, triple quote, ...) on a table / a column, alone or mixed with ordinary settings.  '
+            'random family: case = (model seed, spelling seed); the model has >= 1 property on a table or column (1-3 keys each, values '
             'single- and multi-line with quotes/backslashes), mixed with every ordinary column setting, notes and index '
             'blocks; spelling of the table and its columns free (one-line/multi-line lists, settings order, body '
             'positions, string styles), other elements in documentation spelling.  Contract: PyDBML(text, '
             'allow_properties=True) is accepted, view == model for the tables (properties exact and in order, ordinary '
             'settings intact), db.allow_properties is True, and re-parsing db.dbml gives the same properties.')
-    bound = 'quick 500 documents, thorough 15000'
+    bound = '80 probe documents (exhaustive: 2 sites x 10 value classes x alone/mixed x one-line/multi-line) + quick 500 random documents, thorough 15000'
     budget = {'quick': 20.0, 'thorough': 200.0}
     chunk = 16
 
     def cases(self, tier, seed):
+        for site in ('table', 'column'):
+            for value in PROBE_VALUES:
+                for mixed in (False, True):
+                    for ml in ('one', 'multi'):
+                        yield {'family': 'probe', 'site': site, 'value': value, 'mixed': mixed, 'ml': ml}
         n = 500 if tier == 'quick' else 15000
         for i in range(n):
             yield {'m': seed * 1000003 + 900000 + i, 's': seed * 7919 + 5 * i + 3, 'size': 'small' if i % 3 else 'tiny'}
 
     def check(self, recipe):
-        m = prop_model(recipe['m'], recipe.get('size', 'small'))
-        sp = {'seed': recipe['s'], 'free': FREE}
+        if recipe.get('family') == 'probe':
+            m = probe_model(recipe)
+            sp = {'seed': 0, 'pin': ['*'], 'force': {'ml': recipe['ml']}}
+        else:
+            m = prop_model(recipe['m'], recipe.get('size', 'small'))
+            sp = {'seed': recipe['s'], 'free': FREE}
         text = surface(m, sp)
         try:
             db = parse_real(text, True)
@@ -144,9 +202,7 @@ class Accept(BObl):
                 parse_real(db.dbml, False)
             except Exception:
                 return None          # the property-free rendering does not re-parse either: C02's concern
-            vals = [x for t in m['tables'] for h in [t] + t['columns'] for _k, x in h['properties']]
-            why = ('trailing-backslash' if any(x.endswith('\\') for x in vals)
-                   else 'triple-quote-in-value' if any("'''" in x for x in vals) else type(e).__name__)
+            why = _rejected_class(m)
             return (f'roundtrip-rejected:{why}',
                     (f'db.dbml with properties does not parse back ({type(e).__name__}: {str(e)[:120]}) while the rendering '
                      f'without properties does; rendered:\n{out[:450]}')[:900])
@@ -161,7 +217,7 @@ class Accept(BObl):
                 shown = f'{[k for k, _ in p1]} -> {[k for k, _ in p2]}'
             else:
                 k, x, y = [(k, x, y) for (k, x), (_k2, y) in zip(p1, p2) if x != y][0]
-                cls = _rt_class(x, y)
+                cls = _rt_class(x)
                 shown = f'{k}: {x!r} -> {y!r}'
             frag = '\n'.join(l for l in out.split('\n') if any(k in l for k, _ in p1))[:250]
             return (f'roundtrip:{kind}:{cls}',
